@@ -5,6 +5,8 @@ from .engine import Cfg
 
 SELF, ALL = "self", "all"
 KNOWN_ENT = set([1, 2, 3]) | set(range(100, 109))
+DEFINITION_ENT = set(range(100, 104))     # sys.Room, sys.Authorisation, sys.UserAuth, sys.EntityRight: never data
+DEF_MSG = "%s of a room-definition entity (%d) accepted as synchronised data"
 CONFORM = {"ok": True, "extra": True, "none": False, "null": False, "wrongtype": False, "missing": False,
            "big": True, "notobj": False, "badjson": False}
 CODE = {"ok": 0, "none": 1, "extra": 2, "null": 3, "wrongtype": 4, "missing": 5, "big": 6, "notobj": 7, "badjson": 8, "ukey": 9}
@@ -277,6 +279,7 @@ class C02(Cfg):
             old = [e for e in cur["E"] if e[:5] == (src, se, lab, dst, c)]
             need = ALL if (old and old[0][5] != k) else SELF
             if se not in KNOWN_ENT: obj.append(("unknown-entity-stored", "reference deletion record %s" % (t,)))
+            if se in DEFINITION_ENT: obj.append(("authorisation-entity-ingested", DEF_MSG % ("reference deletion record %s" % (t,), se)))
             if not can(r_, k, se, d, need): obj.append(("edge-deletion-without-right", "%s needs %s" % (t, need)))
             if r_ != room: obj.append(("deletion-of-other-room", "reference deletion record of room %d accepted while synchronising room %d" % (r_, room)))
             srow = before_n.get(src)
@@ -315,6 +318,7 @@ class C02(Cfg):
             old = before_n.get(id_)
             need = ALL if (old is not None and old[5] != k) else SELF
             if ent not in KNOWN_ENT: obj.append(("unknown-entity-stored", "node deletion record %s" % (t,)))
+            if ent in DEFINITION_ENT: obj.append(("authorisation-entity-ingested", DEF_MSG % ("node deletion record %s" % (t,), ent)))
             if not can(r_, k, ent, d, need): obj.append(("node-deletion-without-right", "%s needs %s" % (t, need)))
             if r_ != room: obj.append(("deletion-of-other-room", "node deletion record of room %d accepted while synchronising room %d" % (r_, room)))
             if old is not None and old[1] == r_ and old[2] != ent:
@@ -356,6 +360,7 @@ class C02(Cfg):
             obj = []
             if r_ != room: obj.append(("row-of-other-room", "row %s stored while synchronising room %d" % (new, room)))
             if ent not in KNOWN_ENT: obj.append(("unknown-entity-stored", "row %s" % (new,)))
+            if ent in DEFINITION_ENT: obj.append(("authorisation-entity-ingested", DEF_MSG % ("row %s" % (new,), ent)))
             if a["js"] == "none":
                 obj.append(("json-absent-accepted", "row %d of entity %d stored without JSON although `name` is mandatory" % (id_, ent)))
             elif not conforms(a): obj.append(("nonconforming-row-stored", "row %d shape %s" % (id_, a["js"])))
@@ -391,6 +396,7 @@ class C02(Cfg):
             if a["sig"] != "1": return [("stored-bad-signature", "reference %s" % (e,))]
             obj = []
             if se not in KNOWN_ENT: obj.append(("unknown-entity-stored", "reference %s" % (e,)))
+            if se in DEFINITION_ENT: obj.append(("authorisation-entity-ingested", DEF_MSG % ("reference %s" % (e,), se)))
             prev = [x for x in cur["E"] if (x[0], x[2], x[3]) == (src, lab, dst) and x not in deleted_edges]
             need = ALL if (prev and prev[0][5] != k) else SELF
             if not can(room, k, se, c, SELF): obj.append(("edge-without-right", "reference %s in room %d" % (e, room)))
